@@ -166,6 +166,9 @@ def run(chk):
         text = " ".join(r["tokens"]).replace("[ ", "[").replace(" ]", "]").replace("( ", "(").replace(" )", ")").replace(" , ", ", ")
         a = from_spec(r["ast"])
         lines.append(print_line(a, text, "tlc_enumerated"))
+        if c09.valid(text, "2.0"):
+            # the same text under the other grammar version the parser offers (where that grammar admits it): same structure, same fixed point
+            lines.append(print_line(a, text, "tlc_enumerated:2.0", version="2.0"))
         try:
             lines.append(print_line(a, str(build_model(a)), "tlc_enumerated:built_from_classes"))
         except Exception as e:  # noqa
@@ -182,6 +185,8 @@ def run(chk):
             skipped += 1
             continue
         lines.append(print_line(a, text, "random"))
+        if i % 3 == 0 and c09.valid(text, "2.0"):
+            lines.append(print_line(a, text, "random:2.0", version="2.0"))
         try:
             built = str(build_model(a))
         except Exception as e:  # noqa
